@@ -27,6 +27,16 @@ fn const_invalid(ev: &EV) -> bool {
     ev.cst && ev.elem.is_none()
 }
 
+/// Under an adversarial prover the model's native value of a field variable
+/// means nothing: what a gadget consumes is whatever the prover assigned.
+fn actual_fv(w: &World, fid: usize) -> FV {
+    let mut fv = w.fs[&fid].clone();
+    if w.judge == Judge::C14 {
+        fv.val = fv.var.value().ok();
+    }
+    fv
+}
+
 fn step2(w: &mut World, op: &R1Op, mut a: Args, before: Cost, dup: bool) -> Resolved {
     let name = op_name(op);
     let cs = w.cs.clone();
@@ -170,7 +180,7 @@ fn step2(w: &mut World, op: &R1Op, mut a: Args, before: Cost, dup: bool) -> Reso
         }
         R1Op::Decompress(fi) => {
             let fid = need!(a.f(w, *fi));
-            let fv = w.fs[&fid].clone();
+            let fv = actual_fv(w, fid);
             let s = fv.val;
             let elem = s.and_then(|s| native_decode(&s));
             let defined = !(fv.cst && elem.is_none());
@@ -215,7 +225,7 @@ fn step2(w: &mut World, op: &R1Op, mut a: Args, before: Cost, dup: bool) -> Reso
         }
         R1Op::Elligator(fi) => {
             let fid = need!(a.f(w, *fi));
-            let fv = w.fs[&fid].clone();
+            let fv = actual_fv(w, fid);
             let var = fv.var.clone();
             let r = guard(w, name, true, || ElementVar::encode_to_curve(&var));
             match r {
@@ -468,7 +478,7 @@ fn step2(w: &mut World, op: &R1Op, mut a: Args, before: Cost, dup: bool) -> Reso
         }
         R1Op::Isqrt(fi) => {
             let fid = need!(a.f(w, *fi));
-            let fv = w.fs[&fid].clone();
+            let fv = actual_fv(w, fid);
             let var = fv.var.clone();
             let r = guard(w, name, true, || var.isqrt());
             match r {
@@ -506,7 +516,7 @@ fn step2(w: &mut World, op: &R1Op, mut a: Args, before: Cost, dup: bool) -> Reso
         }
         R1Op::Abs(fi) => {
             let fid = need!(a.f(w, *fi));
-            let fv = w.fs[&fid].clone();
+            let fv = actual_fv(w, fid);
             let var = fv.var.clone();
             let r = guard(w, name, true, || var.abs());
             match r {
@@ -532,7 +542,7 @@ fn step2(w: &mut World, op: &R1Op, mut a: Args, before: Cost, dup: bool) -> Reso
         }
         R1Op::IsNegative(fi) | R1Op::IsNonnegative(fi) => {
             let fid = need!(a.f(w, *fi));
-            let fv = w.fs[&fid].clone();
+            let fv = actual_fv(w, fid);
             let var = fv.var.clone();
             let negq = matches!(op, R1Op::IsNegative(_));
             let r = guard(w, name, true, || if negq { var.is_negative() } else { var.is_nonnegative() });
